@@ -6,4 +6,4 @@ mkdir -p /tmp/rv
 ls seeded | grep -v harmless | while read s; do
   if [ $# -gt 0 ]; then ok=0; for p in "$@"; do case $s in $p*) ok=1;; esac; done; [ $ok = 1 ] || continue; fi
   echo $s
-done | xargs -P $par -I{} bash -c 'p=$(echo {} | cut -d- -f1); python3 tools/verify_seeded.py $p /verif/seeded/{} {} --isolated > /tmp/rv/{}.log 2>&1; echo "{} $(tail -1 /tmp/rv/{}.log | cut -c1-150)"'
+done | xargs -P $par -I{} bash -c 'p=$(echo {} | cut -d- -f1); python3 tools/verify_seeded.py $p /verif/seeded/{} {} --isolated $VS_FLAGS > /tmp/rv/{}.log 2>&1; echo "{} $(tail -1 /tmp/rv/{}.log | cut -c1-150)"'
